@@ -408,6 +408,9 @@ func gen(r *Rng, tier string, emit Emit) {
 			v := uefigen.GenVol(rr, o, 0)
 			wellFormedVol(v)
 			largeForms(rr.Fork(0xC09C), v, it%3 == 0)
+			if it%2 == 1 {
+				uefigen.DiversifyVol(v, rr.Fork(0xD1C09), divC09)
+			}
 			img, fields = uefigen.EmitVol(v)
 		} else {
 			reg := uefigen.GenRegion(rr, o)
@@ -417,6 +420,9 @@ func gen(r *Rng, tier string, emit Emit) {
 				if e.Vol != nil {
 					largeForms(lr, e.Vol, it%3 == 0)
 				}
+			}
+			if it%2 == 1 {
+				uefigen.Diversify(reg, rr.Fork(0xD1C09), divC09)
 			}
 			img, fields = uefigen.EmitRegion(reg)
 		}
@@ -467,6 +473,7 @@ func gen(r *Rng, tier string, emit Emit) {
 			}
 		}
 	}
+	genAudit(r.Fork(0xA0D1709), tier, emit)
 }
 
 func main() {
@@ -476,5 +483,6 @@ func main() {
 	Register("p_saved_clean", pSavedClean)
 	Register("p_detect", pDetect)
 	Register("p_detect_built", pDetectBuilt)
+	Register("p_edit_clean", pEditClean)
 	Main(gen)
 }
